@@ -7,9 +7,11 @@
                            plain = the connection was served as plaintext, cert = index of the context whose
                            certificate the client saw (0 = none), ok = handshake completed on both sides and
                            application data flowed
-     upd{pos, field, val, path}   a runtime update of one field of context pos was pushed through `path`
-                           (sds-push: SetSecret on the running provider; config-update: listener TLS update / new manager
-                           with the same name, which also re-configures the SDS providers in place)
+     upd{pos, field, val, how, path}   a runtime update of one field of context pos was pushed through `path`
+                           (sds-push: SetSecret on the running provider; config-update[:same-file-rewritten|:other-file|
+                           :inline-material]: listener TLS update / new manager with the same name, which also
+                           re-configures the SDS providers in place). Contexts carry the realised source of their
+                           material (casrc/certsrc inline|file|sds, capath/certpath), informational for the judgement
      up{cfg, upds, cert, ok, upplain}   a real clientContextManager handshake towards a stock crypto/tls server;
                            upplain = the upstream received a plaintext connection instead *)
 EXTENDS TLSSelect, VTrace
@@ -20,7 +22,8 @@ NoHist == [last |-> "-", path |-> "-", prev |-> {}]
 
 ToSet(s) == { s[k] : k \in DOMAIN s }
 CtxOf(j) == [names |-> ToSet(j.names), sn |-> j.sn, alpn |-> ToSet(j.alpn), ready |-> j.ready,
-             verify |-> j.verify, require |-> j.require, ca |-> j.ca]
+             verify |-> j.verify, require |-> j.require, ca |-> j.ca,
+             casrc |-> j.casrc, certsrc |-> j.certsrc, capath |-> j.capath, certpath |-> j.certpath]
 CtxsOf(js) == [k \in DOMAIN js |-> CtxOf(js[k])]
 HelloOf(e) == [sni |-> e.sni, up |-> e.up, alpn |-> ToSet(e.alpn), peer |-> e.peer, vers |-> e.vers]
 
@@ -29,22 +32,22 @@ SniClass(h) == IF h.sni = <<>> THEN "none"
                ELSE IF Len(h.sni) = 1 /\ h.sni[1] \in AlpnWords THEN "alpn-token" ELSE "name"
 B(b) == IF b THEN "1" ELSE "0"
 
-UpdOf(j) == [pos |-> j.pos, field |-> j.field, val |-> IF j.field \in {"names", "alpn"} THEN ToSet(j.val) ELSE j.val]
+UpdOf(j) == [pos |-> j.pos, field |-> j.field, val |-> IF j.field \in {"names", "alpn"} THEN ToSet(j.val) ELSE j.val, how |-> j.how]
 
 TraceInit == /\ l = 1 /\ cs = [side |-> "srv", ctxs |-> <<>>, insp |-> FALSE] /\ hist = NoHist
-             /\ live = <<>> /\ todo = <<>>
+             /\ live = <<>> /\ todo = <<>> /\ pools = {}
              /\ pc = "done" /\ i = 0 /\ dflt = 0 /\ afirst = 0 /\ chosen = 0 /\ served = "-" /\ result = "-"
 
 TMgr == /\ IsEvent("mgr")
         /\ cs' = [side |-> "srv", ctxs |-> CtxsOf(Ev.ctxs), insp |-> Ev.insp] /\ hist' = NoHist
-        /\ UNCHANGED <<live, todo, pc, i, dflt, afirst, chosen, served, result>>
+        /\ UNCHANGED <<live, todo, pools, pc, i, dflt, afirst, chosen, served, result>>
 
 (* the policy in force is the last pushed one: from here on handshakes are judged by the updated list *)
 TUpd == /\ IsEvent("upd")
         /\ Ev.pos \in 0..Len(cs.ctxs)
         /\ LET nl == ApplyUpd(Listener(cs), UpdOf(Ev)) IN cs' = [cs EXCEPT !.ctxs = nl.ctxs, !.insp = nl.insp]
         /\ hist' = [last |-> Ev.field, path |-> Ev.path, prev |-> hist.prev \cup {Listener(cs)}]
-        /\ UNCHANGED <<live, todo, pc, i, dflt, afirst, chosen, served, result>>
+        /\ UNCHANGED <<live, todo, pools, pc, i, dflt, afirst, chosen, served, result>>
 
 (* a plaintext client; after an update the failing class names the updated field and the path it took *)
 KP(kind) == IF hist.last = "-" THEN kind ELSE "update:" \o hist.last \o ":" \o hist.path \o ":" \o kind
@@ -109,7 +112,7 @@ THs == /\ IsEvent("hs")
        /\ IF Ev.first = "plain" THEN PlainChecks(Ev) ELSE TlsChecks(Ev)
        /\ UNCHANGED <<vars, hist>>
 
-UpCfgOf(j) == [sn |-> j.sn, skip |-> j.skip, ca |-> j.ca]
+UpCfgOf(j) == [sn |-> j.sn, skip |-> j.skip, ca |-> j.ca, casrc |-> j.casrc, capath |-> j.capath]
 UpCertOf(j) == [names |-> ToSet(j.names), ca |-> j.ca, expired |-> j.expired]
 UpKind(cfg, cert, x) ==
   "upstream:skip-" \o B(cfg.skip) \o ":chain-" \o (IF UpChainOK(cfg, cert) THEN "ok" ELSE "bad")
